@@ -6,6 +6,7 @@ import itertools
 import json
 import random
 import signal
+import os
 import sys
 import time
 
@@ -59,12 +60,13 @@ def profile_invariants(p):
 
 TOKENS = ['0', '1', '2', '3', '4', '9', '-1', '-2', '-9', '=', '1=2', '2=1=3', '1=1', '"a"', '"b c"', '"x', 'y"', '"', '#', '# c', '/*', '*/',
           '/* x */', '[tie', '[nick', '[droop', '[withdrawn', '[undeclared', '[bogus]', ']', 'a', 'b]', '1]', '(id1)', '(id', '2)', '(', ')',
-          '\n', '\n', 'rule=wigm', 'x=y', '00', '007', '١', '﻿', 'é', '"é"']
+          '\n', '\n', 'rule=wigm', 'x=y', '00', '007', '١', '﻿', 'é', '"é"', '"100%"', '"%s"', '"%d %"']
 
 
 def valid_texts(rng):
     base = [
         '3 2\n4 1 2 0\n2 3 0\n0\n"A"\n"B"\n"C"\n"T"\n',
+        '3 2\n4 1 2 0\n2 3 0\n0\n"100% A"\n"B %s"\n"%d"\n"T 5%"\n',
         '4 2\n-2\n3 1 3 0\n2 4 1 0\n1 3=4 1 0\n0\n"A" "B" "C" "D"\n"T" "S" "C"\n',
         '3 1\n[nick a b c]\n[tie c a b]\n2 a b 0\n2 c 0\n0\n"A"\n"B"\n"C"\n"T"\n',
         '3 2 # comment\n(b1) 1 2 0\n(b2) 2 0\n(b 3) 3 1 0\n0\n"A" "B" "C" "T"\n',
@@ -198,8 +200,8 @@ def render(st, layout, rng, use_nick=False, use_ids=False):
         else:
             lines.append('%d %s 0' % (m, body))
     tail = ['0'] + ['"%s"' % x for x in st['names']] + ['"%s"' % st['title']]
-    if st.get('source'):
-        tail.append('"%s"' % st['source'])
+    if st.get('source') is not None:
+        tail.append('"%s"' % st['source'])      # may be the empty string ""
         if st.get('comment'):
             tail.append('"%s"' % st['comment'])
     parts = head + lines + tail
@@ -213,7 +215,8 @@ def render(st, layout, rng, use_nick=False, use_ids=False):
     for p_ in parts:
         out.append(p_ + (' # trailing comment "x" [y' if rng.random() < 0.4 and not p_.startswith('"') else ''))
         if rng.random() < 0.3:
-            out.append('/* block /* nested */ "still" comment */')
+            out.append(rng.choice(['/* block /* nested */ "still" comment */', '/* precinct # 1 */', '/* a "quoted word" # and a hash */',
+                                   '/* 50% of /* # nested */ it */']))
     return '\n'.join(out) + '\n'
 
 
@@ -224,7 +227,7 @@ def check_C15(res):
     rng = random.Random(res.seed)
     budget = 30 if res.tier == 'quick' else 900
     t0 = time.time()
-    namepool = ['Ann', 'Bob Smith', 'Cé Dürr', 'D # not a comment', 'E /* x */ F', 'G-H', 'I=J', '[K]']
+    namepool = ['Ann', 'Bob Smith', 'Cé Dürr', 'D # not a comment', 'E /* x */ F', 'G-H', 'I=J', '[K]', '100% Renewable', 'Mr %s', '%d']
     while time.time() - t0 < budget and res.evaluations < (4000 if res.tier == 'quick' else 10 ** 6):
         n = rng.randint(2, 5)
         wd = tuple(sorted(rng.sample(range(1, n + 1), rng.randint(0, max(0, n - 2))))) if rng.random() < 0.5 else ()
@@ -248,8 +251,8 @@ def check_C15(res):
                   names=[rng.choice(namepool) + str(i) for i in range(n)], title=rng.choice(['T', 'An election', 'Élection # 1']),
                   tie=(rng.sample(range(1, n + 1), n) if rng.random() < 0.4 else None),
                   nicks=(['n%s' % chr(97 + i) for i in range(n)] if rng.random() < 0.4 else None),
-                  source=('src file' if rng.random() < 0.4 else None), comment=None)
-        if st['source'] and rng.random() < 0.5:
+                  source=(rng.choice(['src file', 'src file', '']) if rng.random() < 0.45 else None), comment=None)
+        if st['source'] is not None and rng.random() < 0.5:
             st['comment'] = 'a comment'
         # expected structure after parsing
         kept = []
@@ -296,7 +299,7 @@ def check_C15(res):
                         prob.append('names %r' % p.candidateName)
                     if p.withdrawn != set(wd) or p.undeclared != set(und):
                         prob.append('withdrawn/undeclared')
-                    if (p.source or None) != st['source'] or (p.comment or None) != st['comment']:
+                    if (p.source or None) != (st['source'] or None) or (p.comment or None) != st['comment']:
                         prob.append('source/comment')
                     if st['tie'] and [c for c, o in sorted(p.tieOrder.items(), key=lambda kv: kv[1])] != st['tie']:
                         prob.append('tie order')
@@ -431,9 +434,15 @@ def check_C18(res):
                     if not blk.startswith(a['msg']):
                         res.violation('report action text differs from record (%s)' % rule, H.wit(data, rule, opts))
                         break
-                    if a['tag'] in ('begin', 'count', 'elect', 'defeat', 'transfer', 'end'):
+                    if a['tag'] in ('begin', 'count', 'elect', 'defeat', 'transfer', 'end', 'iterate'):
                         for line in blk.split('\n'):
                             line = line.strip()
+                            # the totals printed with the step are the recorded ones
+                            for lab, key in (('Surplus:', 'surplus'), ('Residual:', 'residual'), ('Votes:', 'votes'),
+                                             (E.rule.quota_name + ':', 'quota')):
+                                if line.startswith(lab) and a.get(key) is not None and line[len(lab):].strip() != str(a[key]):
+                                    res.violation('report line %r disagrees with the recorded %s %s (%s %s)' % (line, key, a[key], rule, opts),
+                                                  H.wit(data, rule, opts))
                             for lab, stt in (('Elected:', 'elected'), ('Pending:', 'elected'), ('Hopeful:', 'hopeful')):
                                 if line.startswith(lab):
                                     nm, tal = line[len(lab):].strip().rsplit(' (', 1)
@@ -442,6 +451,9 @@ def check_C18(res):
                                     if len(cids) != 1 or a['cstate'][cids[0]]['state'] != stt or str(a['cstate'][cids[0]]['vote']) != tal:
                                         res.violation('report line %r disagrees with the record (%s)' % (line, rule), H.wit(data, rule, opts))
     H.run_counts(res, H.RULES, res.tier, res.seed, per, with_withdrawn=True, grid=True, time_budget=18 if res.tier == 'quick' else 500)
+    # equal rankings under fixed-point Meek/Warren: the corner where truncation leaves the total surplus a hair below zero
+    H.run_extra(res, H.eq_profiles(res.tier, res.seed), ['meek', 'warren'], per, 8 if res.tier == 'quick' else 200,
+                opts_list=({'arithmetic': 'fixed', 'precision': 6},))
 
     def namesakes(p):
         n = p['ncand']
@@ -452,7 +464,7 @@ def check_C18(res):
 
 
 def check_C19(res):
-    res.rule = ('KeyboardInterrupt raised (sys.settrace) at the k-th line event inside droop code during E.count(), for every k (quick: every 3rd) '
+    res.rule = ('KeyboardInterrupt raised (sys.settrace) at the k-th line event inside droop code during E.count(), for the first visit of every executed source line plus a sample of the other line events (thorough: every k) '
                 'of small counts of all rules; then report(True), dump(True), json(True) must succeed, carry the interruption marker and '
                 'their actions must be a prefix of the uninterrupted record; distinct = (rule, interruption point)')
     rng = random.Random(res.seed)
@@ -461,9 +473,7 @@ def check_C19(res):
     budget = 30 if res.tier == 'quick' else 900
     t0 = time.time()
     step = 3 if res.tier == 'quick' else 1
-
-    class Stop(Exception):
-        pass
+    covered = set()
 
     for p in profs:
         data = H.pdata(p)
@@ -475,13 +485,13 @@ def check_C19(res):
             except Exception:
                 continue
             ref = [(a['tag'], a['msg']) for a in full.erecord['actions']]
-            # count line events
-            total = [0]
+            # count line events, remembering which source line each one is
+            events = []
 
             def counter(frame, event, arg):
                 if 'droop' in frame.f_code.co_filename:
                     if event == 'line':
-                        total[0] += 1
+                        events.append((frame.f_code.co_filename, frame.f_lineno))
                     return counter
                 return None
             E = H.make(data, rule, {})
@@ -490,33 +500,52 @@ def check_C19(res):
                 E.count()
             finally:
                 sys.settrace(None)
-            n = total[0]
-            ks = list(range(0, n, step))
-            if len(ks) > 60:
-                ks = sorted(rng.sample(ks, 60))
-            for k in ks:
+            n = len(events)
+            # interruption points: the first time each source line not yet interrupted anywhere is reached (so every
+            # executed line of the package is interrupted at least once over the run), plus a sample of the others
+            ks = []
+            for k, ev in enumerate(events):
+                if ev not in covered:
+                    covered.add(ev)
+                    ks.append(k)
+            rest = [k for k in range(0, n, step) if k not in set(ks)]
+            ks += rng.sample(rest, min(len(rest), 25 if res.tier == 'quick' else len(rest)))
+            for k in sorted(ks):
                 if time.time() - t0 > budget:
                     return
                 seen = [0]
+                fired = [False]
 
                 def tracer(frame, event, arg):
                     if 'droop' in frame.f_code.co_filename:
                         if event == 'line':
                             seen[0] += 1
-                            if seen[0] > k:
+                            if seen[0] > k and not fired[0]:
+                                fired[0] = True
                                 raise KeyboardInterrupt()
                         return tracer
                     return None
                 E = H.make(data, rule, {})
                 interrupted = False
+                died = None
                 sys.settrace(tracer)
                 try:
                     E.count()
                 except KeyboardInterrupt:
                     interrupted = True
+                except BaseException as e:      # noqa
+                    died = e
                 finally:
                     sys.settrace(None)
+                if not fired[0]:
+                    continue
+                if died is not None:
+                    res.violation('an interrupt at line event %d (%s:%d) makes the count die with %s instead of KeyboardInterrupt (%s)' % (
+                        k, os.path.basename(events[k][0]), events[k][1], type(died).__name__, rule), H.wit(data, rule, {}, {'interrupt_at': k}))
+                    continue
                 if not interrupted:
+                    res.violation('an interrupt at line event %d (%s:%d) is swallowed: the count runs on (%s)' % (
+                        k, os.path.basename(events[k][0]), events[k][1], rule), H.wit(data, rule, {}, {'interrupt_at': k}))
                     continue
                 res.evaluations += 1
                 res.sig((rule, k))
@@ -613,10 +642,21 @@ def check_C14(res):
                 if got is None or got != half_up(Fraction(v, S), Guarded.display) or x._value != v or not und:
                     res.violation('Guarded(p=%d,g=%d,d=%d) stored %d prints %r; exact %s' % (p_, g, d, v, t, Fraction(v, S)),
                                   {'class': 'Guarded', 'precision': p_, 'guard': g, 'display': d, 'value': v})
+    def adversarial(d):
+        "long fractions, huge magnitudes, values a hair from a rounding boundary (numerator, denominator)"
+        out = []
+        for big in (3 ** 200, 7 ** 150, 2 ** 300 + 1, 10 ** 60 + 3):
+            out += [(1, big), (-1, big), (10 ** 40 * big + 1, big), (-(10 ** 40) * big - 1, big), (10 ** 31 * big + big // 3, big)]
+            half = Fraction(1, 2 * 10 ** d)
+            for eps in (Fraction(1, big), -Fraction(1, big), Fraction(0)):
+                for base in (Fraction(0), Fraction(3), Fraction(-7), Fraction(10 ** 25)):
+                    x_ = base + half + eps
+                    out.append((x_.numerator, x_.denominator))
+        return out
     for d in (0, 1, 3, 12):
         Rational.initialize(Options({'arithmetic': 'rational', 'display': d}))
         for n, m in [(0, 1), (1, 3), (-1, 3), (2, 3), (-2, 3), (1, 2), (-1, 2), (1, 8), (-1, 8), (5, 1000), (-5, 1000), (999, 1000), (-999, 1000),
-                     (10 ** 20 + 1, 3)] + [(rng.randint(-10 ** 6, 10 ** 6), rng.randint(1, 10 ** 4)) for _ in range(40)]:
+                     (10 ** 20 + 1, 3)] + [(rng.randint(-10 ** 6, 10 ** 6), rng.randint(1, 10 ** 4)) for _ in range(40)] + adversarial(d):
             x = Rational(n, m)
             t = str(x)
             res.evaluations += 1
@@ -675,6 +715,42 @@ def check_C12(res):
                         for nm, got, want in (('<', a < b, val(a) < val(b)), ('==', a == b, val(a) == val(b)), ('>=', a >= b, val(a) >= val(b))):
                             if got != want:
                                 res.violation('Fixed comparison %r %s %r is %s' % (a, nm, b, got), {'op': nm, 'a': repr(a), 'b': repr(b), 'precision': p_})
+    _min_checks(res)
+
+
+def _min_checks(res):
+    "V.min(list) returns the exact minimum for Fixed and Rational (C12: comparisons are exact there), on near-equal values too"
+    from fractions import Fraction
+    from droop.options import Options
+    from droop.values.fixed import Fixed
+    from droop.values.rational import Rational
+    rng = random.Random(res.seed + 11)
+    Rational.initialize(Options({'arithmetic': 'rational'}))
+    lists = []
+    for _ in range(60):
+        base = Fraction(rng.randint(-5, 50), rng.randint(1, 9))
+        tiny = Fraction(1, 10 ** rng.choice([3, 17, 20, 40]))
+        lists.append([base + tiny * rng.randint(0, 3) for _ in range(rng.randint(2, 5))])
+    lists.append([Fraction(1) + Fraction(1, 10 ** 20), Fraction(1)])
+    lists.append([Fraction(10 ** 400), Fraction(10 ** 400) - 1])
+    for L in lists:
+        vals = [Rational(x.numerator, x.denominator) for x in L]
+        try:
+            m = Rational.min(vals)
+        except Exception as e:      # noqa
+            res.violation('Rational.min raised %s' % type(e).__name__, {'op': 'min', 'values': [str(x) for x in L]})
+            continue
+        res.evaluations += 1
+        if Fraction(m) != min(L):
+            res.violation('Rational.min%s returns %s, the exact minimum is %s' % ([str(x) for x in L], Fraction(m), min(L)), {'op': 'min', 'values': [str(x) for x in L]})
+    for p_ in (0, 2, 9):
+        Fixed.initialize(Options({'arithmetic': 'fixed', 'precision': p_}))
+        for _ in range(40):
+            raw = [rng.randint(-10 ** 6, 10 ** 6) + rng.choice([0, 10 ** 18]) for _ in range(rng.randint(2, 5))]
+            m = Fixed.min([Fixed(v, True) for v in raw])
+            res.evaluations += 1
+            if m._value != min(raw):
+                res.violation('Fixed.min of stored %s returns %d' % (raw, m._value), {'op': 'min', 'values': raw, 'precision': p_})
 
 
 def check_C03(res):
